@@ -146,6 +146,18 @@ def run(args, rep):
         progs = progs[:6484] + progs[6484 + 4156:][:1500]
     optsets = [('TT-taint', {'rl': True, 'rg': True, 'taint': True}), ('TF-taint', {'rl': True, 'rg': False, 'taint': True})]
     skipped = _rename.observe_and_judge(rep, progs, optsets, ['c09:'], 'C09', rng, variant_share=0.0)
+    # (a') the trigger is one of the program's own names: x is spelled eval / exec / locals / globals / vars, so whether the module refers to the builtin
+    # depends on where x is bound and read (PyScope.tla decides); every function and the module also have a renamable name of their own.
+    # Programs: the enumerated ones and the deep chains module > s2 > s3 > s4 of every kind (class in class in function, ...)
+    own, _ = _rename.chain_programs(args.tier, rng, n_nested=4000, n_other=2000)
+    own += [pp for pp in progs if rng.random() < (0.3 if args.tier == 'quick' else 1.0)]
+    trig_names = ['eval', 'exec', 'locals', 'globals', 'vars']
+    jobs2 = []
+    for pid, p in own:
+        tn = trig_names[rng.randrange(len(trig_names))]
+        jobs2.append({'id': '%s|TT|own-%s' % (pid, tn), 'p': p, 'variant': 0, 'opts': {'rl': True, 'rg': True}, 'names': {'x': tn}, 'witness': True})
+    skipped2 = _rename.judge_jobs(rep, jobs2, ['c09:'], 'C09o')
+    own_n = len(jobs2)
     # (b) generated trigger programs
     jobs = []
     optnames = ['rename_locals', 'rename_globals', 'hoist_literals', 'remove_builtin_exception_brackets']
@@ -250,10 +262,11 @@ def run(args, rep):
                       replay={'kind': 'minify', 'version': '3.12', 'src_b64': inputs.b64(j['src'].encode()), 'opts': j['opts']})
     rep.sample({'program': jobs[0]['id'], 'source': jobs[0]['src'][:400], 'observed_tainted': obs[0]['tainted_observed'], 'stages': [e['stage'] for e in obs[0]['stages']]})
     rep.exhaustive = False
-    rep.rule = ('(a) enumerated scope programs of Rename.tla concretised with a module-level eval(); (b) 7 triggers + 4 look-alikes x 15 syntactic positions x 2 bodies x '
+    rep.rule = ('(a) enumerated scope programs of Rename.tla concretised with a module-level eval(); (a2) enumerated programs and every 4-deep chain of scopes with '
+                'the name x itself spelled eval / exec / locals / globals / vars and a renamable name in every function: tainted iff PyScope.tla resolves a read of x to the builtin; (b) 7 triggers + 4 look-alikes x 15 syntactic positions x 2 bodies x '
                 '16 combinations of rename_locals / rename_globals / hoist_literals / remove_builtin_exception_brackets [quick: 4] x preserve lists, star imports; '
                 '(c) the exec statement on 2.7; non-trivial = distinct (position, trigger, body) programs that contain a trigger')
-    rep.extra.update({'programs_enumerated_by_tlc': total, 'scope_programs_replayed': len(progs), 'trigger_programs': len(jobs), 'skipped': skipped,
+    rep.extra.update({'programs_enumerated_by_tlc': total, 'scope_programs_replayed': len(progs), 'trigger_programs': len(jobs), 'skipped': skipped, 'own_name_trigger_programs': own_n, 'skipped_own': skipped2,
                       'checker_cmd': 'tlc Rename.tla; tlc Pipeline.tla; tlc Trace_Rename.tla; tlc Trace_Taint.tla'})
     rep.assumptions += ['look-alikes (obj.eval, the string "eval", a keyword named eval) are not constrained',
                         'identifier multiset: Name ids, arg names, def/class names, global/nonlocal names, import bound names, except names']
